@@ -103,6 +103,16 @@ pub fn run(ctx: &Ctx) -> Report {
     let mut rep = parallel(ctx.workers, |w| {
         let mut rep = Report::new();
         let mut rng = Rng::new(derive(ctx.seed, &prop, w as u64, 0));
+        if prop == "C11" && w == 0 {
+            // registries far larger than a history builds: code ids beyond one and two bytes, instance numbers beyond one
+            // byte (thorough: beyond two)
+            let (codes, insts) = if ctx.tier.is_thorough() { (70_000, 66_000) } else { (66_000, 300) };
+            for dsc in crate::engines::e1_scale::registry_scale_pass(&mut rep, codes, insts, ctx.seed, &|| ctx.expired_at(35)) {
+                for p in &dsc.props {
+                    rep.violate(p, dsc.sig.clone(), dsc.detail.clone(), json!({"engine": "e1_scale", "codes": codes, "instances": insts, "first_discrepancy": dsc.detail}));
+                }
+            }
+        }
         let n = ctx.scale(if sweep { 400 } else { 1600 }, 16 * if sweep { 12000 } else { 40000 }) / ctx.workers as u64;
         for i in 0..n.max(1) {
             if ctx.expired_at(70) {
@@ -184,16 +194,6 @@ pub fn run(ctx: &Ctx) -> Report {
                 }
             }
         }
-        if prop == "C11" && w == 0 {
-            // registries far larger than a history builds: code ids beyond one and two bytes, instance numbers beyond one
-            // byte (thorough: beyond two)
-            let (codes, insts) = if ctx.tier.is_thorough() { (70_000, 66_000) } else { (66_000, 300) };
-            for dsc in crate::engines::e1_scale::registry_scale_pass(&mut rep, codes, insts, ctx.seed) {
-                for p in &dsc.props {
-                    rep.violate(p, dsc.sig.clone(), dsc.detail.clone(), json!({"engine": "e1_scale", "codes": codes, "instances": insts, "first_discrepancy": dsc.detail}));
-                }
-            }
-        }
         if prop == "C01" || prop == "C10" {
             // trees with staking / distribution / ibc / gov messages: model-free invariants only
             let n = ctx.scale(240, 16 * 3000) / ctx.workers as u64;
@@ -261,7 +261,7 @@ pub fn replay(ctx: &Ctx, w: &Value) -> Report {
         return crate::props::staking_replay(ctx, w);
     }
     if w["engine"] == "e1_scale" {
-        for dsc in crate::engines::e1_scale::registry_scale_pass(&mut rep, w["codes"].as_u64().unwrap_or(66_000), w["instances"].as_u64().unwrap_or(300), ctx.seed) {
+        for dsc in crate::engines::e1_scale::registry_scale_pass(&mut rep, w["codes"].as_u64().unwrap_or(66_000), w["instances"].as_u64().unwrap_or(300), ctx.seed, &|| false) {
             for p in &dsc.props {
                 rep.violate(p, dsc.sig.clone(), dsc.detail.clone(), json!({"engine": "e1_scale", "codes": w["codes"], "instances": w["instances"], "first_discrepancy": dsc.detail}));
             }
